@@ -271,11 +271,12 @@ def _retry_finish(pid, wd, thorough, v, binp, mc, mcs, gen):
         "bounds": ("retry MC (%s): %d states: notifier type {webhook, pagerduty} x canonical outcome scripts over {ok, slow, c4xx, c429, c5xx, "
                    "refused, reset, hangT, hangD} of length <= %s (webhook) / <= %s (pagerduty), the last outcome repeating x own timeout "
                    "configured or not (300 ms) x end of the flush {deadline 450, 1600, 2900 ms; deadline 2900 ms cancelled at 130, 950 ms} x "
-                   "the extreme gaps of the back-off ticker. Gen (%s): %d deliveries, %d with every scripted outcome reachable; replayed: "
+                   "the extreme gaps of the back-off ticker. Gen (%s; webhook scripts <= 4, pagerduty <= %s): %d deliveries, %d with every scripted outcome reachable; replayed: "
                    "all %d with <= 3 outcomes, %d %s with 4 (seed %d)" %
                    ("MC_DeliveryRetry_thorough.cfg" if thorough else "MC_DeliveryRetry.cfg", mc.distinct,
                     "5" if thorough else "4", "4" if thorough else "3",
-                    "Gen_DeliveryRetry_thorough.cfg" if thorough else "Gen_DeliveryRetry.cfg", n_all, n_use, n_short, n_long,
+                    "Gen_DeliveryRetry_thorough.cfg" if thorough else "Gen_DeliveryRetry.cfg", "3" if thorough else "2",
+                    n_all, n_use, n_short, n_long,
                     "(all)" if thorough else "sampled", seed)),
         "rule": "retry: one case = one delivery (notifier type, outcome script, timeout configured, deadline, cancellation) replayed in "
                 "real time; non-trivial = at least two attempts observed",
